@@ -46,7 +46,13 @@ def files_mod():
     return f
 
 
+_RAW = {}
+
+
 def make_raw_record(f):
+    if id(f) in _RAW:
+        return _RAW[id(f)][1]
+
     @dataclass
     class RawRecord(f.Record):
         text: str
@@ -57,6 +63,7 @@ def make_raw_record(f):
 
         def save(self):
             return self.text
+    _RAW[id(f)] = (f, RawRecord)
     return RawRecord
 
 
@@ -239,7 +246,7 @@ class MutableAdapter:
     def obs(self, w):
         f = w["f"]
         if f is None:
-            return {"built": False, "plain": 0, "lines": [], "dirty": 0}
+            return {"built": False, "plain": 0, "lines": [], "dirty": 2}
         with open(w["path"], "rb") as fh:
             if fh.read() != w["src"]:
                 raise Unexpected("the source file's bytes changed")
